@@ -512,7 +512,7 @@ func abstractRun(a *absCtx, r *ScenarioRun, drvDir string) ([]map[string]any, er
 				if p.Real && p.Spec.Run == "" && idle(p, e.T) {
 					continue
 				}
-				out = append(out, map[string]any{"ev": "end", "h": s.ID, "t": e.T, "hasfs": hasfs, "fs": a.fsAll(e.Dirs, nil)})
+				out = append(out, map[string]any{"ev": "end", "h": s.ID, "t": e.T, "hasfs": hasfs, "resync": e.Note == "resync", "fs": a.fsAll(e.Dirs, nil)})
 			case "skip":
 				logs := decodeAll(e.Logs)
 				out = append(out, map[string]any{"ev": "skip", "h": s.ID, "t": e.T, "nerr": len(e.Errs), "nlog": len(logs), "logk": logKind(logs)})
